@@ -142,6 +142,8 @@ type c09Case struct {
 	QER  *sQER     `json:"qer,omitempty"`
 	Est  *sessReq  `json:"est,omitempty"`
 	Mods []sessReq `json:"mods,omitempty"`
+	Upd  []sQER    `json:"upd,omitempty"`  // part C: the successive Update QERs
+	With bool      `json:"with,omitempty"` // part C: next to a second QER (session level)
 }
 
 func c09Values() []uint64 { return []uint64{0, 1, 7, 8, 9, 1 << 20, 1 << 32, 1<<40 - 1} }
@@ -485,6 +487,119 @@ func c09PartB(res *vResult, only *c09Case) {
 	}
 }
 
+// ---- part C: update histories. A QER is established, then updated by every single-field change and every pair of them,
+// then updated back; after each accepted update both directions' entries are compared with the QER as last signalled.
+func c09PartC(res *vResult, cfg c09Cfg, only *c09Case) {
+	in := newVInst(vCfg{NConns: 1, QciQos: cfg.Qci})
+	defer in.close()
+	sys := &sessSys{ex: &seqExplorer{res: res}, res: res, in: in, m: newRefAgent(1)}
+	sys.exec(&sessReq{sReq: sReq{Kind: kAssoc, Conn: 0}})
+	defer func() { res.Transitions += int64(sys.steps); res.Traces += int64(sys.steps) }()
+	run := func(base sQER, upd []sQER, withSmall bool) {
+		cs := c09Case{Part: "C", Cfg: cfg, QER: &base, Upd: upd, With: withSmall}
+		res.journal(cs)
+		res.Evaluations++
+		p, f, _ := rsBasic("16.0.0.1", 0x100, "11.1.1.129")
+		qs := []sQER{base}
+		p[0].QERs, p[1].QERs = []uint32{base.ID}, []uint32{base.ID}
+		if withSmall {
+			qs = append(qs, sQER{ID: 2, QFI: base.QFI, MBRUL: 0, MBRDL: 0})
+			p[0].QERs, p[1].QERs = []uint32{2, base.ID}, []uint32{base.ID, 2}
+		}
+		ctx := sys.exec(&sessReq{sReq: sReq{Kind: kEst, Conn: 0, CPSEID: 1, CreatePDR: p, CreateFAR: f, CreateQER: qs}})
+		if ctx.pframe != "" {
+			res.finding("c09:panic:"+ctx.pframe, ctx.pmsg, cs)
+			return
+		}
+		if !ctx.accepted || ctx.newSess == nil {
+			res.finding("c09:est-rejected", fmt.Sprintf("establishment with QER %+v rejected", base), cs)
+			return
+		}
+		up := ctx.newSess.UPSEID
+		for ui, q := range upd {
+			q := q
+			mc := sys.exec(&sessReq{sReq: sReq{Kind: kMod, Conn: 0, UpdateQER: []sQER{q}}, Sess: ctx.newSess.Idx})
+			if mc.pframe != "" {
+				res.finding("c09:panic:"+mc.pframe, mc.pmsg, cs)
+				return
+			}
+			if !mc.accepted {
+				res.finding("c09:update-rejected", fmt.Sprintf("Update QER %+v (step %d) rejected", q, ui), cs)
+				break
+			}
+			ul, dl, tbl := c09Entries(in.fb, up, q.ID)
+			if ul == nil && dl == nil {
+				ul, dl = c09SessEntries(in.fb, up)
+				tbl = SessQerLookup
+			}
+			res.outcome("update table=" + tbl)
+			if ul == nil || dl == nil {
+				res.finding("c09:entry-missing-after-update", fmt.Sprintf("after Update QER %+v: uplink entry %v, downlink entry %v", q, ul != nil, dl != nil), cs)
+				break
+			}
+			bad := false
+			if v := c09CheckEntry(ul, &q, true, cfg); v != "" {
+				res.finding("c09:update-value-ul:"+c09Class(v), fmt.Sprintf("established %+v, Update QER %+v (step %d, %s) uplink: %s", base, q, ui, tbl, v), cs)
+				bad = true
+			}
+			if v := c09CheckEntry(dl, &q, false, cfg); v != "" {
+				res.finding("c09:update-value-dl:"+c09Class(v), fmt.Sprintf("established %+v, Update QER %+v (step %d, %s) downlink: %s", base, q, ui, tbl, v), cs)
+				bad = true
+			}
+			if tbl == AppQerLookup && (len(ul.Values) != 1 || ul.Values[0] != uint64(q.QFI)) {
+				res.finding("c09:update-qfi", fmt.Sprintf("Update QER %+v: QFI value in the entry is %v", q, ul.Values), cs)
+				bad = true
+			}
+			res.States++
+			if bad {
+				break
+			}
+		}
+		res.Distinct++
+		sys.exec(&sessReq{sReq: sReq{Kind: kDel, Conn: 0}, Sess: ctx.newSess.Idx})
+	}
+	if only != nil {
+		run(*only.QER, only.Upd, only.With)
+		return
+	}
+	deltas := []func(q *sQER){
+		func(q *sQER) { q.GateUL ^= 1 },
+		func(q *sQER) { q.GateDL ^= 1 },
+		func(q *sQER) { q.MBRUL += 8 },
+		func(q *sQER) { q.MBRDL += 8 },
+		func(q *sQER) { q.HasGBR, q.GBRUL, q.GBRDL = true, q.GBRUL+16, q.GBRDL+16 },
+		func(q *sQER) { q.QFI = 5 },
+	}
+	item := 0
+	for g := 0; g < 4; g++ {
+		for _, rates := range [][2]uint64{{50000, 60000}, {0, 0}} {
+			base := sQER{ID: 1, QFI: 9, GateUL: uint8(g & 1), GateDL: uint8(g >> 1), MBRUL: rates[0], MBRDL: rates[1]}
+			for a := -1; a < len(deltas); a++ {
+				for b := a; b < len(deltas); b++ {
+					if b < 0 {
+						continue
+					}
+					item++
+					if !vMine(item) {
+						continue
+					}
+					q := base
+					if a >= 0 {
+						deltas[a](&q)
+					}
+					if b != a {
+						deltas[b](&q)
+					}
+					// there, unchanged once more (a repeated QER), and back
+					for _, with := range []bool{false, true} {
+						run(base, []sQER{q, q, base}, with)
+					}
+				}
+			}
+		}
+	}
+}
+
 func TestVerifC09(t *testing.T) {
 	vQuietLoggers()
 	res := vNewResult()
@@ -492,13 +607,16 @@ func TestVerifC09(t *testing.T) {
 	res.Rule = "(A) product of MBR {0,1,7,8,9,2^20,2^32,2^40-1} x GBR<=MBR (same set, or absent) x both gate bits x QFI {0,5,9,63,200} x 4 burst configurations, each QER alone and next to a " +
 		"second one (so that it is programmed at application and at session level), uplink and downlink entries compared with the statement's arithmetic (exact rational burst); " +
 		"(B) every assignment of ordered non-empty QER lists over 1-3 QERs to 1-3 PDRs (with and without a GBR QER) followed by every sequence of <=2 modifications that create or update " +
-		"QERs; limiter identified from the datapath by its rates. distinct_nontrivial = distinct (QER value, config) / (shape, modification sequence) cases executed"
+		"QERs; limiter identified from the datapath by its rates; (C) update histories: a QER (4 gate combinations x metered/unmetered, application and session level) is updated by every single change of " +
+		"{uplink gate, downlink gate, MBR up, MBR down, GBR, QFI} and every pair of them, repeated unchanged, and updated back - after every update both entries are compared with the QER as last signalled. distinct_nontrivial = distinct (QER value, config) / (shape, modification sequence) cases executed"
 	res.Assumptions = []string{"fake BESS Qos tables are keyed by the command's Fields", "burst sizes are required to be at least floor(rate x duration), not its ceiling"}
 	if rc := vReplayCase(); rc != nil {
 		var cs c09Case
 		json.Unmarshal(rc, &cs)
 		if cs.Part == "A" {
 			c09PartA(res, cs.Cfg, &cs)
+		} else if cs.Part == "C" {
+			c09PartC(res, cs.Cfg, &cs)
 		} else {
 			c09PartB(res, &cs)
 		}
@@ -508,6 +626,12 @@ func TestVerifC09(t *testing.T) {
 		c09PartA(res, cfg, nil)
 	}
 	c09PartB(res, nil)
+	c09PartC(res, c09Cfgs[0], nil)
+	if vEnv.Thorough {
+		for _, cfg := range c09Cfgs[1:] {
+			c09PartC(res, cfg, nil)
+		}
+	}
 	res.sample(map[string]any{"part": "A", "qer": sQER{ID: 1, QFI: 9, MBRUL: 1<<40 - 1, MBRDL: 12345, HasGBR: true, GBRUL: 7, GBRDL: 7}, "cfg": "default+q9"})
 	res.sample(map[string]any{"part": "B", "pdr_qer_lists": [][]uint32{{3}, {1, 2, 3}}, "mods": []string{"create-q5-q6", "update-q1"}})
 }
